@@ -43,32 +43,3 @@ Proof.
   destruct out; [congruence| |]; cbn; repeat split; repeat constructor.
 Qed.
 
-(* C16, clone: the only path opened for writing / created is the output; nothing is unlinked; the output is
-   never truncated at open *)
-Theorem clone_effects : forall env,
-  let r := clone_cmd_model env in
-  Forall (fun e => match e with EOpenW t _ _ tr _ => t = 0 /\ tr = false | EUnlink _ => False | _ => True end) (s_eff r).
-Proof.
-  intros [[fc so vo] ar pn out src]. cbv zeta. unfold clone_cmd_model, run_clone, clone_step_order.
-  destruct ar; destruct pn; destruct fc; destruct so; destruct out; cbn;
-    repeat match goal with
-           | |- context [if ?b then _ else _] => destruct b; cbn
-           end; repeat constructor.
-Qed.
-
-(* C16, compress: a successful run creates the temp file and the archive, removes the temp file, and ends
-   with the archive as a regular file *)
-Theorem compress_effects : forall env,
-  (forall c, z_out env <> Blk c) ->
-  let r := compress_cmd_model env in
-  s_failed r = false ->
-  s_out r = Reg (z_archive env)
-  /\ exists cr ex tr, s_eff r = [EOpenW 0 cr ex tr true; EOpenW 1 true false true true; EWrites; EUnlink 1].
-Proof.
-  intros [[f] out a]. cbn [z_out]. intros Hb0. cbv zeta. unfold compress_cmd_model, compress_step_order.
-  assert (Hb : forall c, out <> Blk c) by exact Hb0. clear Hb0.
-  assert (Hnil : forall l : list N, l ++ dropN (lenN l) [] = l).
-  { intros l. destruct (lenN l); cbn; apply app_nil_r. }
-  destruct f; destruct out; cbn; intros H; try discriminate; rewrite ?Hnil;
-    try (exfalso; eapply Hb; reflexivity); split; try reflexivity; eauto.
-Qed.
